@@ -592,7 +592,9 @@ def run_prop(prop: str, tier: str, replay=None) -> int:
             layout["wf"] += wf
             layout["hoist_equal"] += he
             layout["hoist_equal_modulo_DUP"] = layout.get("hoist_equal_modulo_DUP", 0) + (wfd and hed)
-            if (wf and he) or (wfd and hed):     # theorems layout_rel_sound / layout_rel_sound_dup
+            ped = fields.get("perm-equal-dup") == "1"
+            layout["perm_equal_modulo_DUP"] = layout.get("perm_equal_modulo_DUP", 0) + ped
+            if (wf and he) or (wfd and hed) or ped:     # theorems layout_rel_sound / layout_rel_sound_dup / layout_rel_sound_perm
                 layout["equal_denotation_by_theorem"] += 1
                 dn = {f: r.get("denote") for f, r in reps.items()}
                 if len(set(dn.values())) != 1:
